@@ -204,7 +204,16 @@ func buildAssertion(r *RNG, s *AuthSpec) M {
 	}
 	allow := s.Allow
 	if s.d("allow.excludes") {
-		allow = [][]byte{r.Bytes(len(s.CredID)), r.Bytes(4)}
+		// ids that are NOT the credential's id (redrawn on the rare collision: ids can be a single byte)
+		other := r.Bytes(len(s.CredID))
+		for string(other) == string(s.CredID) {
+			other = r.Bytes(len(s.CredID) + 1)
+		}
+		other2 := r.Bytes(4)
+		for string(other2) == string(s.CredID) {
+			other2 = r.Bytes(5)
+		}
+		allow = [][]byte{other, other2}
 	}
 	if s.d("allow.lengthVariant") {
 		// the list names ids that are the credential's id cut short or extended (by zeros, by 256 bytes): none of them is the credential's id
